@@ -143,5 +143,6 @@ SaveReloadAgrees == \A h \in Hosts : LookupMap(LoadFile(<<>>, store, FixIter, Fi
 \* check() is true exactly for the effective key (definitional on the model; on the code it is the trace
 \* spec's clause P_check_not_exactly_effective_key)
 CheckExact       == \A h \in Hosts, k \in Keys : Check(store, Plain(h), k) <=> LookupMap(store, h)[k.kt] = k
-Emit == PrintT(<<"CASE", hist, store>>)
+\* one single-line print per history (ToString: TLC's pretty-printer would dominate the run)
+Emit == PrintT(<<"CASE", ToString(<<hist, store>>)>>)
 =============================================================================
